@@ -76,6 +76,23 @@ class FuncFacts:
                         self.index_names[iv.id] = ("enumerate", lo, start, n)
                 elif ct.is_entries_slice(it) and isinstance(n.target, ast.Name):
                     self.entry_names[n.target.id] = ("elem", "for", None)
+        # scratch buffers: name = BytesIO(); X._write(name)  ->  name holds exactly the serialisation of X
+        self.buffers = {}  # buffer name -> object expression serialised into it (None if more than one write)
+        bufnames = set()
+        for n in walk_no_nested(fn):
+            if isinstance(n, ast.Assign) and len(n.targets) == 1 and isinstance(n.targets[0], ast.Name) and isinstance(n.value, ast.Call) \
+                    and norm(n.value.func) in ("BytesIO", "io.BytesIO") and not n.value.args:
+                bufnames.add(n.targets[0].id)
+        for n in walk_no_nested(fn):
+            if isinstance(n, ast.Call) and isinstance(n.func, ast.Attribute) and n.args and isinstance(n.args[0], ast.Name) and n.args[0].id in bufnames:
+                b = n.args[0].id
+                if n.func.attr == "_write" and b not in self.buffers:
+                    self.buffers[b] = n.func.value
+                else:
+                    self.buffers[b] = None
+            if isinstance(n, ast.Call) and isinstance(n.func, ast.Attribute) and isinstance(n.func.value, ast.Name) and n.func.value.id in bufnames \
+                    and n.func.attr in ("write", "seek", "truncate"):
+                self.buffers[n.func.value.id] = None
         # events
         for cn in self.cfg.nodes:
             st = cn.stmt
@@ -128,7 +145,13 @@ class FuncFacts:
                     whence = c.args[1] if len(c.args) > 1 else next((k.value for k in c.keywords if k.arg == "whence"), C(0))
                     self.events.append(Ev("seek", cn, st, c, target=c.args[0] if c.args else None, whence=norm(whence)))
                 elif f.attr == "write":
-                    self.events.append(Ev("raw_write", cn, st, c, value=c.args[0] if c.args else None))
+                    src = self.buffered_object(c.args[0]) if c.args else None
+                    if src is not None and self.is_entry_expr(src):
+                        self.events.append(Ev("entry_write", cn, st, c, entry=src, buffered=True))
+                    elif src is not None:
+                        self.events.append(Ev("block_write", cn, st, c, obj=src, buffered=True))
+                    else:
+                        self.events.append(Ev("raw_write", cn, st, c, value=c.args[0] if c.args else None))
                 elif f.attr == "truncate":
                     self.events.append(Ev("truncate", cn, st, c, size=c.args[0] if c.args else None))
                 elif f.attr == "flush":
@@ -170,6 +193,18 @@ class FuncFacts:
                 self.events.append(Ev("self_prop", cn, st, None, attr=n.attr))
 
     # ------------------------------------------------------------------------------ helpers
+    def buffered_object(self, value):
+        """If `value` is <buf>.getvalue() (directly or through a single-definition local) of a scratch buffer that holds
+        exactly one serialisation X._write(buf), return X."""
+        v = value
+        if isinstance(v, ast.Name):
+            d = self.defs.get(v.id, [])
+            if len(d) == 1:
+                v = d[0][0]
+        if isinstance(v, ast.Call) and isinstance(v.func, ast.Attribute) and v.func.attr in ("getvalue", "getbuffer") and isinstance(v.func.value, ast.Name):
+            return self.buffers.get(v.func.value.id)
+        return None
+
     def is_entry_expr(self, node):
         if isinstance(node, ast.Name) and node.id in self.entry_names:
             return True
